@@ -788,25 +788,28 @@ class SamplerConfig:
             primitive_params=dict(self.primitive_params),
         )
 
-    def with_lanes(self, n: int, in_axes: tuple) -> "SamplerConfig":
+    def with_lanes(self, n: int, arg_axes: tuple, kwarg_axes: dict) -> "SamplerConfig":
         """Create a new config whose sampler is a lane-wise map of this one.
 
         The mapped sampler splits its key into one key per lane and applies
-        the original sampler to each lane's slice of the parameters
-        (`in_axes` as in `jax.vmap`).  As for any batched parameter, the lane
-        axis follows `sample_shape` in the output.
+        the original sampler to each lane's slice of the positional and
+        keyword parameters (`arg_axes` / `kwarg_axes` as `jax.vmap` in_axes).
+        As for any batched parameter, the lane axis follows `sample_shape` in
+        the output.
         """
         keyful_sampler = self.keyful_sampler
 
         def lanes_sampler(key, *args, sample_shape=(), **kwargs):
-            def one_lane(lane_key, *lane_args):
+            def one_lane(lane_key, lane_args, lane_kwargs):
                 return keyful_sampler(
-                    lane_key, *lane_args, sample_shape=sample_shape, **kwargs
+                    lane_key, *lane_args, sample_shape=sample_shape, **lane_kwargs
                 )
 
             return jax.vmap(
-                one_lane, in_axes=(0, *in_axes), out_axes=len(sample_shape)
-            )(jrand.split(key, n), *args)
+                one_lane,
+                in_axes=(0, tuple(arg_axes), dict(kwarg_axes)),
+                out_axes=len(sample_shape),
+            )(jrand.split(key, n), args, kwargs)
 
         return SamplerConfig(
             keyful_sampler=lanes_sampler,
@@ -928,14 +931,25 @@ class VmapBatchHandler:
         batch_axes = tuple(batch_axes[1:])
 
         n = static_dim_length(batch_axes, vector_args)
+
+        # A call with keyword parameters is rebuilt (with its batch axes) from
+        # the flat arguments, so that keywords stay keywords.
+        if params.get("yes_kwargs"):
+            num_consts = params.get("num_consts", 0)
+            in_tree = params["in_tree"]
+            args, kwargs = jtu.tree_unflatten(in_tree, vector_args[num_consts:])
+            arg_axes, kwarg_axes = jtu.tree_unflatten(in_tree, batch_axes[num_consts:])
+        else:
+            (args, kwargs), (arg_axes, kwarg_axes) = (vector_args, {}), (batch_axes, {})
+
         if n is not None:
             # The lanes come from batched parameters.  Map the sampler itself
             # over them so that each lane draws from its own parameters, in
             # whatever layout JAX hands them over and whatever their per-lane
             # ranks are (broadcasting batched arrays against each other pairs
             # parameters of different lanes).
-            new_config = self.config.with_lanes(n, batch_axes)
-            result = create_sample_primitive(new_config)(*vector_args)
+            new_config = self.config.with_lanes(n, arg_axes, kwarg_axes)
+            result = create_sample_primitive(new_config)(*args, **kwargs)
             return (result,), (len(self.config.sample_shape),)
 
         # No parameter is batched: draw one sample per lane via sample_shape.
@@ -944,7 +958,7 @@ class VmapBatchHandler:
 
         # Create new sampler with updated sample shape
         new_config = self.config.with_sample_shape(new_sample_shape)
-        result = create_sample_primitive(new_config)(*vector_args)
+        result = create_sample_primitive(new_config)(*args, **kwargs)
 
         # Return with appropriate output axes
         out_axes = (0 if axis_size else None,)
